@@ -134,6 +134,17 @@ func lakeQuery(env *LakeEnv, src string, par int) runOut {
 		})
 		ch <- o
 	}()
+	if f := os.Getenv("C08_DUMP_SLOW"); f != "" {
+		// diagnostic: stacks of a query that has not finished after 2s
+		select {
+		case o := <-ch:
+			return o
+		case <-time.After(2 * time.Second):
+			buf := make([]byte, 4<<20)
+			n := goruntime.Stack(buf, true)
+			os.WriteFile(f, buf[:n], 0644)
+		}
+	}
 	select {
 	case o := <-ch:
 		return o
